@@ -1,6 +1,6 @@
 SPECIFICATION Spec
 CONSTANTS
-  CfgNames = {"wts", "mix3", "ties"}
+  CfgNames = {"wts", "ties"}
   LibVers = {0, 1, 2}
   Fams = {4, 6}
   NSel = 3
